@@ -204,6 +204,7 @@ type runOpts struct {
 	Subdirs        []string
 	Package        string // proto package (default "protoconf")
 	DryRun         options.DryRun
+	ProtoOut       *options.ProtoOutputOption // proto output options (default: none set)
 }
 
 func (o runOpts) pkg() string {
@@ -227,6 +228,9 @@ func (w *workspace) genProto(o runOpts, paths ...string) error {
 	po := &options.ProtoOption{
 		Input:  &options.ProtoInputOption{Header: o.Header, ProtoPaths: append([]string{w.Proto}, o.ProtoPaths...), ProtoFiles: o.ProtoFiles, Formats: fmts, Subdirs: o.Subdirs, SubdirRewrites: o.SubdirRewrites},
 		Output: &options.ProtoOutputOption{},
+	}
+	if o.ProtoOut != nil {
+		po.Output = o.ProtoOut
 	}
 	setters := []options.Option{options.Proto(po), options.Log(quietLog), options.Lang(lang)}
 	if o.LocationName != "" {
